@@ -405,6 +405,80 @@ fn main() {
             }
             println!("ok geometry delegation");
         }
+        "nearest_endpoint" => {
+            // nearest_endpoint is private: replay through line_intersection on nearly coincident
+            // pairs whose raw crossing leaves the bounding boxes (the fallback runs), both orders
+            use geo::line_intersection::{line_intersection, LineIntersection};
+            use geo::{BoundingRect, Intersects};
+            let pairs = [
+                (
+                    Line::new(coord! { x: 4348433.262114629, y: 5552595.478385733 }, coord! { x: 4348440.849387404, y: 5552599.272022122 }),
+                    Line::new(coord! { x: 4348433.26211463, y: 5552595.47838573 }, coord! { x: 4348440.8493874, y: 5552599.27202212 }),
+                ),
+                (
+                    Line::new(coord! { x: 999999.9999999978, y: 1999999.9999999972 }, coord! { x: 1000007.9999999963, y: 2000004.0000000037 }),
+                    Line::new(coord! { x: 1000000.0000000037, y: 2000000.0000000042 }, coord! { x: 1000007.9999999977, y: 2000004.0000000044 }),
+                ),
+            ];
+            for (p, q) in pairs {
+                let mut pts = vec![];
+                for (a, b) in [(p, q), (q, p)] {
+                    match line_intersection(a, b) {
+                        Some(LineIntersection::SinglePoint { intersection, is_proper: true }) => {
+                            if !(p.bounding_rect().intersects(&intersection) && q.bounding_rect().intersects(&intersection)) {
+                                fail(format!("proper point {:?} of {:?} x {:?} is outside a bounding box", intersection, a, b));
+                            }
+                            pts.push(intersection);
+                        }
+                        other => fail(format!("expected a proper crossing, got {:?}", other)),
+                    }
+                }
+                if pts[0] != pts[1] {
+                    fail(format!("proper point depends on the operand order: {:?} vs {:?}", pts[0], pts[1]));
+                }
+            }
+            println!("ok nearest endpoint");
+        }
+        "line_segment_distance" => {
+            use geo::{Distance, Euclidean};
+            use geo_types::Point;
+            let l = Line::new(coord! {x: 1.0, y: 1.0}, coord! {x: 5.0, y: 4.0});
+            // (point, exact squared distance)
+            let cases = [((0.0, 0.0), 2.0), ((9.0, 7.0), 25.0), ((1.0, 1.0), 0.0), ((3.0, 2.5), 0.0), ((0.0, 7.0), 37.0 - 14.0 * 14.0 / 25.0), ((6.0, -2.0), 729.0 / 25.0)];
+            for ((x, y), want2) in cases {
+                let d: f64 = Euclidean.distance(&Point::new(x, y), &l);
+                let want2: f64 = want2;
+                if d < 0.0 || (d * d - want2).abs() > 1e-9 * (1.0 + want2) {
+                    fail(format!("distance from ({x},{y}) to {:?} is {d}, exact squared distance {want2}", l));
+                }
+            }
+            let dot = Line::new(coord! {x: 2.0, y: 2.0}, coord! {x: 2.0, y: 2.0});
+            let dd: f64 = Euclidean.distance(&Point::new(5.0, 6.0), &dot);
+            if (dd - 5.0).abs() > 1e-12 {
+                fail("distance to a zero-length segment is not the distance to its point".to_string());
+            }
+            println!("ok line segment distance");
+        }
+        "ring_area" => {
+            use geo::Area;
+            use geo_types::{LineString, Polygon};
+            let rings: [&[(i64, i64)]; 3] = [&[(0, 0), (4, 0), (4, 3), (0, 0)], &[(2, 1), (-3, 5), (-4, -4), (6, -2), (2, 1)], &[(0, 0), (2, 2), (2, 0), (0, 2), (0, 0)]];
+            for r in rings {
+                for off in [0i64, 100_000_000] {
+                    let exact2: i64 = r.windows(2).map(|w| w[0].0 * w[1].1 - w[1].0 * w[0].1).sum();
+                    let ls: LineString<f64> = r.iter().map(|&(x, y)| ((x + off) as f64, (y - off) as f64)).collect::<Vec<_>>().into();
+                    let got = Polygon::new(ls, vec![]).signed_area();
+                    if (got * 2.0 - exact2 as f64).abs() > 1e-6 {
+                        fail(format!("signed_area of {:?} translated by {off} is {got}, exact {}", r, exact2 as f64 / 2.0));
+                    }
+                }
+            }
+            let open: LineString<f64> = vec![(0.0, 0.0), (4.0, 0.0), (4.0, 3.0), (1.0, 1.0)].into();
+            if geo::kani_hooks::twice_signed_ring_area(&open) != 0.0 {
+                fail("open ring has non-zero area".to_string());
+            }
+            println!("ok ring area");
+        }
         _ => {
             eprintln!("unknown op {op}");
             std::process::exit(4);
